@@ -43,7 +43,7 @@ RULE = ('one run = one seeded interleaving of commits, packs, clock steps '
         'backup, recover or verify; non-trivial = >= 2 backups; distinct = '
         '(options, op trace)')
 BUDGET = {'quick': {'runs': 3000, 'wall': 300, 'chunk': 5},
-          'thorough': {'runs': 300000, 'wall': 1800, 'chunk': 50}}
+          'thorough': {'runs': 300000, 'wall': 1200, 'chunk': 50}}
 ASSUMPTIONS = [
     'quick mode is specified to trust sizes (and the checksum of the last '
     'increment) only',
